@@ -409,7 +409,12 @@ class World:
         d = self.dirs[op['dir'] % len(self.dirs)]
         if not os.path.isdir(d):
             return
-        files = sorted(f for f in os.listdir(d) if f.endswith('.npy'))
+        # order of first appearance at the seam, not by name: names carry
+        # md5s of reprs that contain an object address for curves without
+        # __repr__ (UnitInterval), which differs from process to process
+        known = {b: k for k, b in enumerate(self._files)}
+        files = sorted((f for f in os.listdir(d) if f.endswith('.npy')),
+                       key=lambda f: (known.get(f, 1 << 30), f))
         if op.get('prefix'):
             files = [f for f in files if f.startswith(op['prefix'])] or files
         if not files:
